@@ -58,6 +58,18 @@ impl SignatureConverter<'_> {
     }
 
     fn generate_params(&self, sig: &mut syn::Signature, receiver_generation: ReceiverGeneration) {
+        // a named lifetime on the deps reference must survive on the `__impl` parameter,
+        // or a function returning a borrow from its dependency stops compiling
+        let deps_lifetime = match (&receiver_generation, sig.inputs.first()) {
+            (ReceiverGeneration::Rewrite, Some(syn::FnArg::Typed(pat_type))) => {
+                match pat_type.ty.as_ref() {
+                    syn::Type::Reference(type_reference) => type_reference.lifetime.clone(),
+                    _ => None,
+                }
+            }
+            _ => None,
+        };
+
         match receiver_generation {
             ReceiverGeneration::Insert => {
                 sig.inputs.insert(
@@ -92,8 +104,10 @@ impl SignatureConverter<'_> {
         }
 
         if matches!(self.impl_receiver_kind, ImplReceiverKind::DynamicImpl) {
-            sig.inputs
-                .insert(1, self.gen_impl_receiver(Span::call_site()));
+            sig.inputs.insert(
+                1,
+                self.gen_impl_receiver(Span::call_site(), deps_lifetime.as_ref()),
+            );
         }
     }
 
@@ -106,7 +120,12 @@ impl SignatureConverter<'_> {
             ImplReceiverKind::SelfRef | ImplReceiverKind::DynamicImpl => {
                 self.gen_self_receiver(span, reference)
             }
-            ImplReceiverKind::StaticImpl => self.gen_impl_receiver(span),
+            ImplReceiverKind::StaticImpl => self.gen_impl_receiver(
+                span,
+                reference
+                    .as_ref()
+                    .and_then(|(_, lifetime)| lifetime.as_ref()),
+            ),
         }
     }
 
@@ -130,10 +149,10 @@ impl SignatureConverter<'_> {
         })
     }
 
-    fn gen_impl_receiver(&self, _: Span) -> syn::FnArg {
+    fn gen_impl_receiver(&self, _: Span, lifetime: Option<&syn::Lifetime>) -> syn::FnArg {
         let entrait = &self.crate_idents.entrait;
         syn::parse_quote! {
-            __impl: &::#entrait::Impl<EntraitT>
+            __impl: & #lifetime ::#entrait::Impl<EntraitT>
         }
     }
 
